@@ -7,8 +7,9 @@ Monitors (all on the real get_action of the 11 algorithms):
   mask              a masked action is never chosen while >= 1 action is allowed (value-based learners, bandits,
                     MADDPG/MATD3 discrete, PPO/IPPO incl. many independent draws of the stochastic policies)
   greedy_optimality exploration off (epsilon=0 / training=False): the chosen action's score is maximal among the
-                    allowed ones; scores = output of the policy network captured by a forward hook during that
-                    very get_action call (bandits: the `action_values` local read by a frame tap); ties accepted
+                    allowed ones; scores = output of the policy network captured by a forward wrapper during that
+                    very get_action call, so noisy layers / train-eval switches cannot desynchronise oracle and
+                    code (bandits: the `action_values` local read by a frame tap); ties accepted
   mask_fed_draw     the epsilon-random branch of DQN/CQN is fed the corner variate 0.0 (inside the support of
                     rand_like / uniform) for every allowed action
   greedy_fed_draw   DQN at epsilon=0: the per-row "use the policy?" variate (Tensor.uniform_) is fed 0.0
@@ -32,10 +33,14 @@ RULE = (
     "asymmetric, per-dimension, odd, one-dimensional, partly infinite], observation kind, forced output layer "
     "[none | ties | desc | asc | +-1e30 patterns | all -3e8 | x1e4], noise / squash / vectorisation / mask-form / "
     "infos-order / env-defined-actions config, seed). Inside a case: single observation, batch of one and batched "
-    "observations; epsilon in {0,.5,1} or training flag on/off; ALL 2^n-1 masks for n<=5 (random masks above), "
-    "many-draw batches for stochastic policies. Non-trivial = at least one row was judged by the legality monitor "
-    "AND (for cases that carry masks) at least one judged mask row had both allowed and masked actions; distinct = "
-    "distinct case descriptions"
+    "observations; epsilon in {0,.5,1} or training flag on/off; ALL 2^n-1 masks for n<=5 per exploration setting "
+    "(single-agent learners and bandits in both tiers, multi-agent learners in the thorough tier; hostile subset + "
+    "random masks otherwise), many-draw batches for stochastic policies, fed corner variates (0.0) for the "
+    "exploration draws of DQN/CQN. Non-trivial = at least one row was judged by the legality monitor AND, for "
+    "discrete / multi-discrete / multi-binary action spaces, at least one judged mask row had both allowed and masked "
+    "actions (so Discrete(1) cases are trivial); for Box action spaces, at least one judged value sat on a finite "
+    "bound, i.e. the clip / clamp / saturated squashing really decided it (partly infinite boxes are never judged, "
+    "hence trivial); distinct = distinct case descriptions"
 )
 ASSUMPTIONS = [
     "CPU only; accelerate / torch.compile paths are not driven",
@@ -62,7 +67,9 @@ ASSUMPTIONS = [
 # every deciding monitor must have fired for every algorithm family present in the run: see finalize()
 # (per-family requirements instead of a flat list so that replaying a single case stays decidable)
 REQUIRED_COUNTERS = ["legal_rows"]
-CASE_TIMEOUT_S = 180
+# typical case: 0.05-1 s.  Generous: on the shared build machine (load average > 400) whole shards stalled for
+# minutes; a timeout is inconclusive, never a verdict
+CASE_TIMEOUT_S = 900
 
 VALUE_DISCRETE = ["DQN", "RainbowDQN", "CQN"]
 BANDITS = ["NeuralUCB", "NeuralTS"]
@@ -377,6 +384,7 @@ class _Ctx:
         self.site = f"{self.algo}.get_action"
         self.crash_seen = set()
         self.mixed_mask_rows = 0
+        self.bound_touched = 0
         self.uses_masks = False
 
     def crash(self, e, where, **detail):
@@ -407,7 +415,7 @@ def _rows(arr, B):
     return a.reshape(B, -1)
 
 
-def check_legal(cx, space, action, B, mode, where, strict_shape=None, **detail):
+def check_legal(cx, space, action, B, mode, where, **detail):
     """Shape + membership per row.  mode: 'train' | 'eval' (only matters for Box of PPO/IPPO)."""
     from gymnasium import spaces
 
@@ -482,6 +490,11 @@ def check_legal(cx, space, action, B, mode, where, strict_shape=None, **detail):
         return rows
     rec.hit("bound_rows", B)
     rec.hit(f"bound_rows:{cx.algo}", B)
+    touched = (np.abs(r64 - low[None, :]) <= tol[None, :]) | (np.abs(r64 - high[None, :]) <= tol[None, :])
+    if touched.any():
+        # the clip / clamp / saturated squashing was engaged: the bound really decided this value
+        cx.bound_touched += int(touched.any(axis=1).sum())
+        rec.hit("bound_rows_on_a_bound", int(touched.any(axis=1).sum()))
     if (strict_out & ~out).any():
         rec.hit("within_float32_tolerance_of_bound(info)")
     if out.any():
@@ -673,8 +686,6 @@ def _extended_forms(M):
 
 # ====================================================================== single-agent, discrete, value based
 def _run_value_discrete(case, rec):
-    import torch
-
     from vf import agentops
 
     cx = _Ctx(case, rec)
@@ -805,7 +816,7 @@ def _run_value_discrete(case, rec):
                         break
     finally:
         cap.remove()
-    rec.nontrivial = rec.counters.get("legal_rows", 0) > 0 and (cx.mixed_mask_rows > 0 or n == 1)
+    rec.nontrivial = rec.counters.get("legal_rows", 0) > 0 and cx.mixed_mask_rows > 0
 
 
 class _FedZeroUniform:
@@ -942,7 +953,7 @@ def _run_bandit(case, rec):
     if tap.problems:
         rec.hit("bandit_tap_problems")
         rec.extra["tap_problems"] = tap.problems[:3]
-    rec.nontrivial = rec.counters.get("legal_rows", 0) > 0 and (cx.mixed_mask_rows > 0 or n == 1)
+    rec.nontrivial = rec.counters.get("legal_rows", 0) > 0 and cx.mixed_mask_rows > 0
 
 
 # ====================================================================== DDPG / TD3
@@ -978,7 +989,7 @@ def _run_det_cont(case, rec):
                     break
                 check_legal(cx, asp, a, Bn, "train" if training else "eval", where, training=training, ou=case["ou"],
                             expl_noise=case["expl"], force=case["force"])
-    rec.nontrivial = rec.counters.get("bound_rows", 0) > 0 or rec.counters.get("partly_infinite_box_rows_not_judged", 0) > 0
+    rec.nontrivial = cx.bound_touched > 0
 
 
 # ====================================================================== PPO
@@ -1032,9 +1043,7 @@ def _run_ppo(case, rec):
         _ppo_plan(case, rec, cx, agent, osp, asp, rng, masks, is_box, B, one)
     finally:
         cap.remove()
-    rec.nontrivial = rec.counters.get("legal_rows", 0) > 0 and (
-        (is_box and (rec.counters.get("bound_rows", 0) + rec.counters.get("partly_infinite_box_rows_not_judged", 0)) > 0) or cx.mixed_mask_rows > 0 or (not is_box and len(masks) == 1)
-    )
+    rec.nontrivial = rec.counters.get("legal_rows", 0) > 0 and ((is_box and cx.bound_touched > 0) or cx.mixed_mask_rows > 0)
 
 
 def _ppo_plan(case, rec, cx, agent, osp, asp, rng, masks, is_box, B, one):
@@ -1213,7 +1222,7 @@ def _run_ma_det(case, rec):
                                     training=training, ou=case["ou"], expl_noise=case["expl"], force=case["force"])
                     if expect is not None:
                         _envdef_info(rec, out[0], expect)
-            rec.nontrivial = rec.counters.get("bound_rows", 0) > 0 or rec.counters.get("partly_infinite_box_rows_not_judged", 0) > 0
+            rec.nontrivial = cx.bound_touched > 0
             return
         # ---------------- discrete actions: masks per agent in infos
         cx.uses_masks = True
@@ -1264,7 +1273,7 @@ def _run_ma_det(case, rec):
                     _envdef_info(rec, out[1], expect)
     finally:
         cap.remove()
-    rec.nontrivial = rec.counters.get("legal_rows", 0) > 0 and (cx.mixed_mask_rows > 0 or (discrete and int(asp[0].n) == 1))
+    rec.nontrivial = rec.counters.get("legal_rows", 0) > 0 and cx.mixed_mask_rows > 0
 
 
 def _run_ippo(case, rec):
@@ -1336,7 +1345,7 @@ def _run_ippo(case, rec):
                 _envdef_info(rec, out[0], expect)
     agent.set_training_mode(True)
     if is_box:
-        rec.nontrivial = rec.counters.get("bound_rows", 0) > 0 or rec.counters.get("partly_infinite_box_rows_not_judged", 0) > 0
+        rec.nontrivial = cx.bound_touched > 0
         return
     cx.uses_masks = True
     if discrete:
@@ -1393,7 +1402,7 @@ def _run_ippo(case, rec):
             judge(out, "train", where, Ms, kind_suffix=suffix, Bn=K, counter="many_draw_rows")
     finally:
         cap.remove()
-    rec.nontrivial = rec.counters.get("legal_rows", 0) > 0 and (cx.mixed_mask_rows > 0 or nm == 1)
+    rec.nontrivial = rec.counters.get("legal_rows", 0) > 0 and cx.mixed_mask_rows > 0
 
 
 # ====================================================================== entry points
